@@ -52,9 +52,19 @@ def run(ctx):
             r.setdefault("failing_input_found", True)
             r.setdefault("expected", "model: " + str(r.get("model"))[:500])
             ctx.report("k-adj:%s:%s" % (group, text[:60]), "model and implementation disagree: " + text[:400], r)
-    if not props_ok and not ctx.violations:
-        ctx.report("c20-proof-broken", "Props/C20.v no longer checks (%s) and the search found no configuration on which the real code misbehaves" % failing,
-                   {"failing_input_found": False, "broken": "Props/C20.v via %s" % failing, "log_tail": (log or "")[-1500:]})
+    if R.model_unavailable:
+        ctx.notes.append("%d model queries were not run: no extracted model" % R.model_unavailable)
+    # something no longer checks, yet nothing (outside an open known-finding class) was reported:
+    # say what broke (lib/main.py's safety net does not fire while known findings are present)
+    open_kf = {k.get("class") for k in vcommon.known_findings(ctx.prop)}
+    real = [v for v in ctx.violations if not (v["kf_class"] and v["kf_class"] in open_kf)]
+    undis = [(n, d) for n, ok, d in ctx.obligations if not ok]
+    if undis and not real:
+        ctx.report("c20-broken:" + undis[0][0],
+                   "obligations no longer check and the search found no configuration on which the real code misbehaves: "
+                   + "; ".join(n for n, _ in undis)[:600],
+                   {"failing_input_found": False, "broken": [{"obligation": n, "detail": d[:400]} for n, d in undis][:12],
+                    "log_tail": (log or "")[-1500:] if not props_ok else "", "notes": ctx.notes[:6]})
 
     ctx.coverage.update({
         "evaluations": R.evaluations,
